@@ -264,8 +264,8 @@ func TestC11(t *testing.T) {
 		},
 		Gen:            genC11,
 		Run:            runC11,
-		QuickChecks:    8000,
-		ThoroughFactor: 20,
+		QuickChecks:    20000,
+		ThoroughFactor: 8,
 	})
 }
 
